@@ -517,9 +517,15 @@ def rule_inf1(ctx):
                "replacement idiom not recognised")
         return
     n, c = cmps[0]
-    v = const_value(c.comparators[0])
-    ok = (isinstance(c.ops[0], ast.LtE) and v == 0) or (
-        isinstance(c.ops[0], ast.Lt) and v == 1)
+    from .common import norm_compare
+    nc = norm_compare(c)
+    if nc is None:
+        r.note("INF1", loc(f, c), dotted(c)[:80],
+               "comparison form not recognised (not judged)")
+        return
+    _, opc, rhs = nc
+    v = const_value(rhs)
+    ok = (opc is ast.LtE and v == 0) or (opc is ast.Lt and v == 1)
     if ok:
         r.ok("INF1", "bilinear_form", loc(f, c), dotted(c),
              "labels <= 0 are replaced")
